@@ -30,7 +30,7 @@ VARIABLES clock,
   pend,       \* [Inst -> set of [type, sh, cts]]  announcements whose goroutine has not run yet
   msgs,       \* set of [from, to, type, sh, ts] in flight
   remote,     \* [Inst -> [Inst -> snapshot \cup {None}]]  remoteNodeStates
-  snaps,      \* set of [from, to, val] state pushes in flight
+  snaps,      \* set of [from, to, val, id] state pushes in flight
   left, leaveEv,
   lastClaim,  \* history: [Inst -> [Sh -> ts of the instance's latest claim (kept after release; 0 after leave)]]
   held,       \* history: [Inst -> [Sh -> the instance has not released that claim itself]]
@@ -46,8 +46,9 @@ Init == /\ clock = 0 /\ local = [i \in Inst |-> NoShards] /\ pend = [i \in Inst 
 
 Known(i) == {j \in Inst : j # i /\ remote[i][j] # None}
 
+NoPend(i, sh, type) == ~\E a \in pend[i] : a.sh = sh /\ a.type = type
 Claim(i, sh) ==
-  /\ i \notin left /\ nclaims < MaxClaims /\ local[i][sh] = 0
+  /\ i \notin left /\ nclaims < MaxClaims /\ local[i][sh] = 0 /\ NoPend(i, sh, "register")
   /\ clock' = clock + 1 /\ nclaims' = nclaims + 1
   /\ local' = [local EXCEPT ![i][sh] = clock + 1] /\ lastClaim' = [lastClaim EXCEPT ![i][sh] = clock + 1]
   /\ held' = [held EXCEPT ![i][sh] = TRUE]
@@ -63,7 +64,7 @@ Announce(i, a) ==
   /\ UNCHANGED <<local, remote, snaps, left, leaveEv, lastClaim, held, nclaims, dups, nsnaps>>
 
 Release(i, sh) ==
-  /\ AllowRelease /\ i \notin left /\ local[i][sh] # 0
+  /\ AllowRelease /\ i \notin left /\ local[i][sh] # 0 /\ NoPend(i, sh, "unregister")
   /\ local' = [local EXCEPT ![i][sh] = 0] /\ held' = [held EXCEPT ![i][sh] = FALSE]
   /\ pend' = [pend EXCEPT ![i] = @ \cup {[type |-> "unregister", sh |-> sh, cts |-> 0]}]
   /\ UNCHANGED <<clock, msgs, remote, snaps, left, leaveEv, lastClaim, nclaims, dups, nsnaps>>
@@ -79,7 +80,7 @@ Deliver(m, keep) ==
 
 Snapshot(i, j) ==
   /\ i # j /\ i \notin left /\ j \notin left /\ nsnaps < MaxSnap
-  /\ snaps' = snaps \cup {[from |-> i, to |-> j, val |-> local[i]]} /\ nsnaps' = nsnaps + 1
+  /\ snaps' = snaps \cup {[from |-> i, to |-> j, val |-> local[i], id |-> nsnaps]} /\ nsnaps' = nsnaps + 1
   /\ UNCHANGED <<clock, local, pend, msgs, remote, left, leaveEv, lastClaim, held, nclaims, dups>>
 Merge(s) ==
   /\ s \in snaps /\ snaps' = snaps \ {s}
@@ -89,8 +90,8 @@ Merge(s) ==
 Leave(i) ==
   /\ AllowLeave /\ left = {} /\ i \notin left /\ pend[i] = {}
   /\ left' = left \cup {i} /\ leaveEv' = leaveEv \cup {<<i, j>> : j \in Inst \ {i}}
-  /\ local' = [local EXCEPT ![i] = NoShards] /\ lastClaim' = [lastClaim EXCEPT ![i] = NoShards]
-  /\ held' = [held EXCEPT ![i] = [sh \in Sh |-> FALSE]]
+  /\ local' = [local EXCEPT ![i] = NoShards]
+  /\ UNCHANGED <<lastClaim, held>>
   /\ UNCHANGED <<clock, pend, msgs, remote, snaps, nclaims, dups, nsnaps>>
 NotifyLeave(e) ==
   /\ e \in leaveEv /\ leaveEv' = leaveEv \ {e}
@@ -106,14 +107,14 @@ Spec == Init /\ [][Next]_vars
 
 (* ---------------- C09 ----------------------------------------------------- *)
 Quiescent == msgs = {} /\ snaps = {} /\ leaveEv = {} /\ \A i \in Inst : pend[i] = {}
-Claimants(sh) == {i \in Inst \ left : lastClaim[i][sh] > 0}
+Claimants(sh) == {i \in Inst : lastClaim[i][sh] > 0}          \* everybody who ever claimed it, also those who left
 Newest(sh) == CHOOSE i \in Claimants(sh) : \A j \in Claimants(sh) : lastClaim[j][sh] <= lastClaim[i][sh]
 Owners(sh) == {i \in Inst \ left : local[i][sh] # 0}
 \* a shard claimed by several instances ends up owned only by the instance with the newest claim
-\* (and by it, unless it has released the claim itself)
+\* (and by it, unless it has released the claim itself or has left)
 SingleNewestOwner == Quiescent => \A sh \in Sh : Claimants(sh) # {} =>
                         /\ Owners(sh) \subseteq {Newest(sh)}
-                        /\ (held[Newest(sh)][sh] => Owners(sh) = {Newest(sh)})
+                        /\ ((held[Newest(sh)][sh] /\ Newest(sh) \notin left) => Owners(sh) = {Newest(sh)})
 \* instances that left own nothing (in anybody's view)
 LeftOwnNothing == Quiescent => \A j \in Inst \ left : \A x \in left : remote[j][x] = None
 
